@@ -173,3 +173,20 @@ func AtomicPoint(label string) {
 		S.Point(label)
 	}
 }
+
+// SelectPoint is placed in front of a non-blocking select (default clause, receive cases only).
+// It is a scheduling point; a thread that passed 40 points in a row yields (a polling loop must
+// not starve the threads it is waiting for). Acquiring the global channel clock over-approximates
+// the close->receive edge of a case that fires.
+func SelectPoint() {
+	if S == nil {
+		return
+	}
+	NPoints++
+	HB.Acquire(S.Current(), GlobalChanKey)
+	if S.RunLength() >= 40 {
+		S.Yield("polling select (fairness)")
+		return
+	}
+	S.Point("select")
+}
